@@ -207,20 +207,27 @@ example := admit_sound_order [exR] exSig exOpts [exL, exI] [exL, exI, exR] (by u
 
 /- FULL: for every pool, oracle, options and submitted list `l :: rest`:
      `LeafOK o l → Admissible roots sigOK (l :: rest) → ∃ p, validateChain roots sigOK o ((l :: rest).map some) = .ok p`
-   i.e. the converse of `admit_sound` with no side condition.  This is FALSE of the code (and of the model):
-   the search tries key-identifier matches before names and never falls back (an AKI that points at a
-   certificate with another name hides the real issuer), it caches the chains found through a candidate
-   under the first prefix that reached it (same-subject certificates), it gives up after 100 signature
-   checks, it never repeats a certificate, and `Verify` answers `[[leaf]]` at once when the leaf is itself
-   trusted.  The harness counts the real behaviour at those points as `obs:valid-path-rejected:*`.
-   Proved below: the statement under exactly those exclusions (`SideConditions`), each one named. -/
+   i.e. the converse of `admit_sound` with no side condition (the property says "if and only if").
+   FALSE of the code (and of the model), in exactly these classes — each a known finding of
+   `known_findings.d/C02.json` with a minimal hierarchy generated on every run (`c02Incomplete`):
+     * `aki-hides-issuer`: key-identifier matches are tried first and names only when there is none, so an AKI that
+       matches some other pool member's SKI hides the real issuer (theorem `aki_hides_issuer`);
+     * `signature-budget`: the search gives up after 100 signature checks (theorem `signature_budget`);
+     * `repeated-certificate`: a certificate is never used twice;
+     * `leaf-is-trusted-with-extra-certificates`: `Verify` answers `[[leaf]]` at once when the leaf is itself trusted;
+     * `issuing-root-is-submitted`: an issuance cycle — the issuing trusted certificate is already on the path.
+   The candidate cache is NOT such a class: on a submission without repeats the walk meets the next submitted
+   certificate before any other unvisited candidate, so the cache is empty whenever it is consulted on the path.
+   Proved below: the statement under exactly those exclusions (`SideConditions` + the freshness premise of
+   `Admissible.belowPool`), each one named.  Cross-signed hierarchies, several roots with one name and same-name
+   intermediates are inside the theorem (only their cost counts against the budget). -/
 
-/-- **admit_complete_partial.** A submission that parses, passes the leaf filters and is a valid linear path
-ending in, or directly below, the trusted pool is admitted — provided the named side conditions hold: no
-repeated certificate, distinct subjects, consistent authority key identifiers, `2·n + 2 ≤ 100` signature
-checks, a leaf followed by further certificates is not itself trusted, records determined by their bytes.  Submitted
-certificates other than the leaf may be members of the trusted pool (the chain may pass through a trusted
-intermediate or cross-certificate and go on to that certificate's own trusted issuer). -/
+/-- **admit_complete_partial.** A submission that parses, passes the leaf filters and is a valid linear path ending in,
+or directly below, the trusted pool is admitted — provided: no certificate is submitted twice; no authority key
+identifier hides a pool member that carries the issuer's name (`akiFindsIssuer`); the walk fits the budget
+(`searchCost`: per submitted certificate one check for every root candidate and one for the next certificate, ≤ 100);
+a leaf followed by further certificates is not itself trusted; records are determined by their bytes.  Any number of
+same-name certificates, cross-certificates and trusted intermediates may be present. -/
 theorem admit_complete_partial (roots : List Cert) (sigOK : SigOracle) (o : Opts) (l : Cert) (rest : List Cert)
     (hleaf : LeafOK o l) (hadm : Admissible roots sigOK (l :: rest)) (hs : SideConditions roots (l :: rest)) :
     ∃ p, validateChain roots sigOK o ((l :: rest).map some) = .ok p := by
